@@ -110,6 +110,11 @@ def handle (op : String) (args0 : List String) : Option String := do
       match ← fanPoints hex with
       | none => pure "true"
       | some (P, n) => pure (boolStr (fanPositiveOk P n))
+  | "c20.holds.cavity_disc" => do  -- n pts : the ONE remaining hypothesis CavityDisc on the model's own run
+      let (_, hex, _) ← takePoints args
+      match ← fanPoints hex with
+      | none => pure "true"
+      | some (P, n) => pure (boolStr (cavityDiscOk P n))
   | "c20.holds.fan_empty" => do    -- n pts : the hypothesis FanEmpty on the model's own run
       let (_, hex, _) ← takePoints args
       match ← fanPoints hex with
